@@ -3,6 +3,7 @@
 (range, symmetric => 0, Gaussian dip closed form, series = singles, setup-level = array-level)."""
 import math
 from vlib.common import *
+from props import c09_replaylib as RL
 
 TOL0 = Fraction(1, 10**12)     # zero delay, exact rational model vs Rust
 TOLI = "1e-10"                 # non-zero delay, interval goal
@@ -180,6 +181,7 @@ def oracle(ctx, obs):
     for c in [o for o in obs if o["kind"] == "harness_crash"]:
         ctx.violation("S5", "harness crashed", {"kind": "crash"}, c)
     for o in obs:
+        RL.cur(ctx, o)
         kind = o["kind"]
         if kind == "arr":
             fam, taus = o["family"], [f64_of_hex(t) for t in o["taus"]]
@@ -356,6 +358,7 @@ def correspondence(ctx, obs, max_cells_q, max_cells_i, max_goals):
     exprs, meta = [], {}
     goals, gmeta = [], {}
     for o in obs:
+        RL.cur(ctx, o)
         if o["kind"] != "arr" or not isinstance(o["series"], list) or any(not isinstance(x, str) for x in o["singles"] + o["normed"]):
             continue
         N = o["cols"] * o["rows"]
@@ -377,6 +380,7 @@ def correspondence(ctx, obs, max_cells_q, max_cells_i, max_goals):
                 gmeta[cid] = (o, j)
                 break
     for o in obs:
+        RL.cur(ctx, o)
         if o["kind"] != "pyth" or not isinstance(o["rate"], str):
             continue
         cid = f"y{len(exprs)}"
@@ -386,6 +390,7 @@ def correspondence(ctx, obs, max_cells_q, max_cells_i, max_goals):
         ctx.seen(("pyth", o["n"], o["k"], o["r"], o["m0"], o["h"], tuple(o["fre"][:6])))
         ctx.count(f"pyth:n{o['n']}")
     for o in obs:
+        RL.cur(ctx, o)
         if o["kind"] != "edge" or "single0" not in o:
             continue
         cid = f"e{len(exprs)}"
@@ -396,6 +401,7 @@ def correspondence(ctx, obs, max_cells_q, max_cells_i, max_goals):
     ctx.cov["obligations"] += len(exprs)
     for cid, _ in exprs:
         o = meta[cid]
+        RL.cur(ctx, o)
         if o["kind"] == "edge":
             coq_edge(ctx, o, cid, res.get(cid))
             continue
@@ -432,6 +438,7 @@ def correspondence(ctx, obs, max_cells_q, max_cells_i, max_goals):
         if ok or cid not in gmeta:
             continue
         o, j = gmeta[cid]
+        RL.cur(ctx, o)
         ctx.case_failures.append({"case": cid})
         ctx.violation("S4", f"real-valued model and hom_rate = {fl(o['singles'][j])!r} disagree beyond {TOLI} at tau={fl(o['taus'][j])!r} ({o['family']}, {o['cols']}x{o['rows']})",
                       {"kind": "value", "family": o["family"]}, dict(arr_input(o), tau=fl(o["taus"][j]), rate=fl(o["singles"][j]), case=cid), found_input=False)
@@ -454,8 +461,22 @@ def unknown_failing(ctx):
     return any(v["found_input"] and match_finding(v, fs, ctx.prop) is None for v in ctx.violations)
 
 
+def replay_evaluate(ctx, obs):
+    oracle(ctx, obs)
+    if os.path.exists(os.path.join(COQ, "Model", "Hom.vo")):
+        correspondence(ctx, obs, 10**6, 64, 64)
+
+
 def run(ctx):
     binp = build_harness(ctx)
+    RL.install(ctx)
+    if getattr(ctx, "replay", None):
+        status = RL.replay(ctx, binp, "C09", ["hom", "pm_integrand", "grid"], replay_evaluate)
+        if status is not None:
+            return status
+        ctx.violations.clear()
+        ctx.proof_failures.clear()
+        ctx.cov["obligations"] = ctx.cov["discharged"] = 0
     msgs, spans = regen(ctx, ["hom", "pm_integrand", "grid"])
     ctx.cov["translated_spans"] = {k: v for k, v in spans.items() if "hom" in v["file"]}
     for m in msgs:
@@ -463,11 +484,13 @@ def run(ctx):
     proved = (not msgs) and prove(ctx, "C09")
     quick = ctx.tier == "quick"
     ncases, max_side, nsetup, ngauss = (84, 8, 9, 6) if quick else (350, 16, 36, 30)
-    obs = run_harness(ctx, binp, ["c09", ctx.seed, ncases, max_side, nsetup, ngauss, 36 if quick else 120, 18 if quick else 54])
+    obs = RL.harvest(ctx, binp, ["c09", ctx.seed, ncases, max_side, nsetup, ngauss, 36 if quick else 120, 18 if quick else 54])
     oracle(ctx, obs)
     for o in [x for x in obs if x["kind"] == "arr"][8:10]:
+        RL.cur(ctx, o)
         ctx.sample({"family": o["family"], "cols": o["cols"], "rows": o["rows"], "taus": [fl(t) for t in o["taus"]], "rates": [fl(x) for x in o["singles"]]})
     for o in [x for x in obs if x["kind"] == "setup"][:1]:
+        RL.cur(ctx, o)
         ctx.sample({"setup": o["setup"], "n": o["n"], "taus": [fl(t) for t in o["taus"]], "rates": [fl(x) for x in o["series_setup"]] if isinstance(o["series_setup"], list) else o["series_setup"]})
     if os.path.exists(os.path.join(COQ, "Model", "Hom.vo")):
         correspondence(ctx, obs, 64 if quick else 144, 25 if quick else 36, 32 if quick else 96)
@@ -476,7 +499,7 @@ def run(ctx):
     if (not proved or ctx.case_failures) and not unknown_failing(ctx):
         ctx.log("S5 deep search for a failing input (obligations broken or model/implementation disagree)")
         for k in range(3):
-            obs2 = run_harness(ctx, binp, ["c09", ctx.seed + 7919 * (k + 1), 400, 12, 12, 20])
+            obs2 = RL.harvest(ctx, binp, ["c09", ctx.seed + 7919 * (k + 1), 400, 12, 12, 20])
             oracle(ctx, obs2)
             if unknown_failing(ctx):
                 break
